@@ -486,3 +486,223 @@ Corollary seq_sched_finishes0 limit ks :
   Forall (fun k => (1 <= k)%nat) ks ->
   exists ls, sched_run limit (seq_sched 0 ks) (0, map LPending ks) = Ok (0, ls) /\ all_finished ls = true.
 Proof. intros H. exact (seq_sched_finishes limit ks [] H eq_refl). Qed.
+
+(* ================================================================ inbound transfer phases: in progress => slot held *)
+
+(* forgetting the phases gives exactly the slot events the rest of this file reasons about *)
+Lemma erase_app a b : erase_phases (a ++ b) = erase_phases a ++ erase_phases b.
+Proof. unfold erase_phases. apply flat_map_app. Qed.
+
+Lemma erase_loop early : forall its, erase_phases (fst (recv_phases_loop early true its)) = fst (recv_loop its) /\
+                                      snd (recv_phases_loop early true its) = snd (recv_loop its).
+Proof.
+  induction its as [|it rest IH]; [split; reflexivity|].
+  destruct it as [| |h]; cbn [recv_phases_loop recv_loop]; try (split; reflexivity).
+  destruct (handled_err h); cbn [orb negb]; [destruct early; split; reflexivity|].
+  destruct (recv_phases_loop early true rest) as [e f], (recv_loop rest) as [e' f']. cbn [fst snd] in *. destruct IH as [E F].
+  subst. rewrite erase_app. destruct early; split; reflexivity.
+Qed.
+
+Theorem phases_erase early its :
+  (Acquire :: fst (recv_goroutine its), snd (recv_goroutine its)) =
+  (erase_phases (fst (recv_phases early true its)), snd (recv_phases early true its)).
+Proof.
+  unfold recv_phases, recv_goroutine. destruct (erase_loop early its) as [E F].
+  destruct (recv_phases_loop early true its) as [e f], (recv_loop its) as [e' f']. cbn [fst snd] in *. subst.
+  destruct f'; cbn [fst snd erase_phases flat_map phase_ev app]; [|reflexivity].
+  change (flat_map phase_ev (e ++ [PRelease])) with (erase_phases (e ++ [PRelease])).
+  now rewrite erase_app.
+Qed.
+
+(* at most one stream: after a read whose contents were handled without error the loop goes round again, and that further
+   iteration does not get a stream (nobody connects a second time on the same connection id) *)
+Fixpoint single_stream (its : list recv_iter) : bool :=
+  match its with
+  | RRead h :: rest =>
+      handled_err h || match rest with RRead _ :: _ => false | _ => single_stream rest end
+  | _ => true
+  end.
+
+Lemma covers_after_release : forall its e f, recv_phases_loop false true its = (e, f) -> single_stream its = true ->
+  (match its with RRead _ :: _ => False | _ => True end) ->
+  slot_covers false false (if f then e ++ [PRelease] else e) = true.
+Proof.
+  intros its e f H _ NR. destruct its as [|[| |h] rest]; cbn [recv_phases_loop] in H; try contradiction;
+    inversion H; subst; reflexivity.
+Qed.
+
+(* the code as found (looping goroutine): while the offered transfer is in progress its slot is held, provided nobody
+   connects a second time *)
+Theorem recv_phases_covered_loop its : single_stream its = true ->
+  slot_covers false false (fst (recv_phases false true its)) = true.
+Proof.
+  intros S. unfold recv_phases. destruct (recv_phases_loop false true its) as [e f] eqn:L. cbn [fst slot_covers implb andb].
+  destruct its as [|[| |h] rest]; cbn [recv_phases_loop] in L.
+  - inversion L; subst. reflexivity.
+  - inversion L; subst. reflexivity.
+  - inversion L; subst. reflexivity.
+  - cbn [single_stream] in S. destruct (handled_err h) eqn:HE.
+    + inversion L; subst. reflexivity.
+    + cbn [orb negb] in S, L. destruct (recv_phases_loop false true rest) as [e' f'] eqn:L'. inversion L; subst.
+      assert (NR : match rest with RRead _ :: _ => False | _ => True end) by (destruct rest as [|[| |?] ?]; auto; discriminate).
+      assert (S' : single_stream rest = true) by (destruct rest as [|[| |?] ?]; auto; discriminate).
+      pose proof (covers_after_release rest e' f L' S' NR) as C.
+      destruct f; cbn [app slot_covers implb andb negb]; exact C.
+Qed.
+
+(* the repaired code (the goroutine returns after the stream it was started for): unconditionally *)
+Theorem recv_phases_covered its : slot_covers false false (fst (recv_phases false false its)) = true.
+Proof.
+  unfold recv_phases. destruct its as [|[| |h] rest]; cbn [recv_phases_loop negb]; try reflexivity.
+  rewrite orb_true_r. reflexivity.
+Qed.
+
+(* the ordering with the early release does NOT have the property (so the theorem above says something) *)
+Theorem early_release_not_covered :
+  slot_covers false false (fst (recv_phases true false [RRead HEnqueued; RAcceptFail])) = false.
+Proof. reflexivity. Qed.
+
+(* and neither does the loop of the code as found when a second stream arrives on the same connection id after a
+   successful first one: it is read without any slot *)
+Theorem second_stream_not_covered :
+  slot_covers false false (fst (recv_phases false true [RRead HEnqueued; RRead HEnqueued; RAcceptFail])) = false.
+Proof. reflexivity. Qed.
+
+(* ---- any number of inbound offers under any schedule *)
+
+Definition it_covered (t : itransfer) : Prop := slot_covers (it_held t) (it_inprog t) (it_rest t) = true.
+
+Lemma count_upd {A} (f : A -> bool) : forall ls i l l', nth_error ls i = Some l ->
+  (length (filter f (upd ls i l')) + bnat (f l) = length (filter f ls) + bnat (f l'))%nat.
+Proof.
+  induction ls as [|y r IH]; intros i l l' H.
+  - destruct i; discriminate.
+  - destruct i as [|j]; cbn [nth_error] in H.
+    + inversion H; subst. cbn [upd filter]. destruct (f l), (f l'); cbn [length bnat]; lia.
+    + cbn [upd filter]. specialize (IH j l l' H). destruct (f y); cbn [length]; lia.
+Qed.
+
+Definition iinv (limit : N) (g : N * list itransfer) : Prop :=
+  fst g = N.of_nat (n_held (snd g)) /\ fst g <= limit /\ Forall it_covered (snd g).
+
+Lemma covers_head h i ps : slot_covers h i ps = true -> implb i h = true.
+Proof. destruct ps; cbn [slot_covers]; intros H; apply andb_true_iff in H; tauto. Qed.
+
+Ltac istep_done ts i E t' :=
+  eexists; split; [reflexivity|]; unfold iinv, n_held in *; cbn [fst snd];
+  let U := fresh "U" in
+  pose proof (count_upd it_held ts i _ t' E) as U; cbn [it_held bnat] in U.
+
+Lemma isched_step_inv limit g i : iinv limit g -> exists g', isched_step limit g i = Ok g' /\ iinv limit g'.
+Proof.
+  destruct g as [sem ts]. intros (Hc & Hle & Hg). cbn [fst snd] in *. unfold isched_step. cbn [fst snd].
+  destruct (nth_error ts i) as [t|] eqn:E; [|eexists; split; [reflexivity|repeat split; assumption]].
+  pose proof (Forall_nth_error _ _ _ _ Hg E) as Ht. unfold it_covered in Ht.
+  destruct t as [h ip rest]. cbn [it_held it_inprog it_rest] in Ht. unfold it_step. cbn [it_rest it_held it_inprog].
+  destruct rest as [|p r].
+  - istep_done ts i E {| it_held := h; it_inprog := ip; it_rest := [] |}.
+    repeat split; [lia | lia | apply Forall_upd; [assumption | exact Ht]].
+  - cbn [slot_covers] in Ht. apply andb_true_iff in Ht as [Hi Ht].
+    destruct p.
+    + apply andb_true_iff in Ht as [Hh Ht]. apply negb_true_iff in Hh. subst h.
+      destruct (try_acquire limit sem) as [c|] eqn:A.
+      * apply try_acquire_some in A. destruct A as [Hlt ->].
+        istep_done ts i E {| it_held := true; it_inprog := true; it_rest := r |}.
+        repeat split; [lia | lia | apply Forall_upd; [assumption | exact Ht]].
+      * istep_done ts i E {| it_held := false; it_inprog := false; it_rest := [] |}.
+        repeat split; [lia | lia | apply Forall_upd; [assumption | reflexivity]].
+    + istep_done ts i E {| it_held := h; it_inprog := true; it_rest := r |}.
+      repeat split; [lia | lia | apply Forall_upd; [assumption | exact Ht]].
+    + istep_done ts i E {| it_held := h; it_inprog := false; it_rest := r |}.
+      repeat split; [lia | lia | apply Forall_upd; [assumption | exact Ht]].
+    + istep_done ts i E {| it_held := h; it_inprog := false; it_rest := r |}.
+      repeat split; [lia | lia | apply Forall_upd; [assumption | exact Ht]].
+    + destruct h.
+      * pose proof (count_upd it_held ts i _ {| it_held := false; it_inprog := ip; it_rest := r |} E) as U.
+        cbn [it_held bnat] in U. unfold n_held in *.
+        unfold sem_release. destruct (sem =? 0) eqn:Z; [lia|].
+        eexists; split; [reflexivity|]. unfold iinv, n_held; cbn [fst snd].
+        repeat split; [lia | lia | apply Forall_upd; [assumption | exact Ht]].
+      * istep_done ts i E {| it_held := false; it_inprog := ip; it_rest := r |}.
+        repeat split; [lia | lia | apply Forall_upd; [assumption | exact Ht]].
+Qed.
+
+Lemma isched_run_inv limit : forall sched g, iinv limit g -> exists g', isched_run limit sched g = Ok g' /\ iinv limit g'.
+Proof.
+  induction sched as [|i r IH]; intros g H; cbn [isched_run].
+  - eexists; split; [reflexivity | assumption].
+  - destruct (isched_step_inv limit g i H) as (g1 & E1 & H1). rewrite E1. apply IH. assumption.
+Qed.
+
+Lemma inprog_le_held : forall ts, Forall it_covered ts -> (n_inprog ts <= n_held ts)%nat.
+Proof.
+  unfold n_inprog, n_held. induction ts as [|t r IH]; intros H; [simpl; lia|]. inversion H as [|? ? Ht Hr]; subst.
+  specialize (IH Hr). apply covers_head in Ht. cbn [filter].
+  destruct (it_inprog t), (it_held t); cbn [length]; try lia; discriminate.
+Qed.
+
+(* At no time are more inbound transfers in progress than the limit: any number of offers whose phase lists keep the slot
+   while in progress, any interleaving, stopped anywhere; the semaphore never panics. *)
+Theorem inbound_in_progress_bounded limit (pss : list (list phase)) sched :
+  Forall (fun ps => slot_covers false false ps = true) pss ->
+  exists sem ts,
+    isched_run limit sched (0, map it_start pss) = Ok (sem, ts) /\
+    (N.of_nat (n_inprog ts) <= sem) /\ sem = N.of_nat (n_held ts) /\ sem <= limit.
+Proof.
+  intros H.
+  assert (I0 : iinv limit (0, map it_start pss)).
+  { unfold iinv; cbn [fst snd]. repeat split; [|lia|].
+    - unfold n_held. clear H. induction pss; [reflexivity|]. cbn [map filter it_start it_held]. assumption.
+    - apply Forall_forall. intros t Ht. apply in_map_iff in Ht as (ps & <- & Hp).
+      rewrite Forall_forall in H. unfold it_covered, it_start; cbn. now apply H. }
+  destruct (isched_run_inv limit sched _ I0) as ([sem ts] & E & (Hc & Hle & Hg)). cbn [fst snd] in *.
+  exists sem, ts. repeat split; auto. pose proof (inprog_le_held ts Hg). lia.
+Qed.
+
+Theorem inbound_in_progress_bounded_code limit (itss : list (list recv_iter)) sched :
+  exists sem ts,
+    isched_run limit sched (0, map (fun its => it_start (fst (recv_phases false false its))) itss) = Ok (sem, ts) /\
+    (N.of_nat (n_inprog ts) <= sem) /\ sem = N.of_nat (n_held ts) /\ sem <= limit.
+Proof.
+  rewrite <- (map_map (fun its => fst (recv_phases false false its)) it_start).
+  apply inbound_in_progress_bounded. apply Forall_forall. intros ps Hp. apply in_map_iff in Hp as (its & <- & Hi).
+  apply recv_phases_covered.
+Qed.
+
+Theorem inbound_in_progress_bounded_loop limit (itss : list (list recv_iter)) sched :
+  Forall (fun its => single_stream its = true) itss ->
+  exists sem ts,
+    isched_run limit sched (0, map (fun its => it_start (fst (recv_phases false true its))) itss) = Ok (sem, ts) /\
+    (N.of_nat (n_inprog ts) <= sem) /\ sem = N.of_nat (n_held ts) /\ sem <= limit.
+Proof.
+  intros H. rewrite <- (map_map (fun its => fst (recv_phases false true its)) it_start).
+  apply inbound_in_progress_bounded. apply Forall_forall. intros ps Hp. apply in_map_iff in Hp as (its & <- & Hi).
+  rewrite Forall_forall in H. apply recv_phases_covered_loop. now apply H.
+Qed.
+
+(* as found: one offer, two streams on its connection id: a transfer in progress with no slot held at all *)
+Theorem second_stream_exceeds :
+  exists sched sem ts,
+    isched_run 1 sched (0, [it_start (fst (recv_phases false true [RRead HEnqueued; RRead HEnqueued; RAcceptFail]))]) = Ok (sem, ts) /\
+    sem = 0 /\ n_inprog ts = 1%nat.
+Proof. exists [0; 0; 0; 0; 0]%nat. eexists. eexists. repeat split; reflexivity. Qed.
+
+(* with the early release two transfers are in progress under limit 1 *)
+Theorem early_release_exceeds_limit :
+  exists sched sem ts,
+    isched_run 1 sched (0, map (fun its => it_start (fst (recv_phases true false its)))
+                              [[RRead HEnqueued; RAcceptFail]; [RRead HEnqueued; RAcceptFail]]) = Ok (sem, ts) /\
+    n_inprog ts = 2%nat.
+Proof. exists [0; 0; 0; 1; 1]%nat. eexists. eexists. split; reflexivity. Qed.
+
+(* the scenario the harness plays: code as it is / early ordering *)
+Theorem stall_scenario_code :
+  stall_scenario false false 1 0 = Ok (0, false, 1) /\
+  stall_scenario false false 3 0 = Ok (2, true, 3) /\
+  stall_scenario false false 3 2 = Ok (0, false, 1) /\
+  stall_scenario false false 50 49 = Ok (0, false, 1).
+Proof. repeat split; vm_compute; reflexivity. Qed.
+
+(* with the early release the slot is free during the stall and the second offer gets it *)
+Theorem stall_scenario_early : stall_scenario true false 1 0 = Ok (1, true, 1).
+Proof. vm_compute. reflexivity. Qed.
